@@ -11,7 +11,9 @@ import (
 	"fmt"
 	"os"
 	"reflect"
+	"strings"
 	"sync"
+	"syscall"
 	"time"
 
 	"github.com/magefile/mage/mg"
@@ -341,8 +343,22 @@ func main() {
 				poolErr = c14MapErr(nil) // ... a nil map
 			case "empty":
 				poolErr = errors.New("") // a non-nil error with an empty message
+			case "etxtbsy":
+				poolErr = &os.PathError{Op: "fork/exec", Path: "/tmp/tool", Err: syscall.ETXTBSY} // transient-looking system errors: one call all the same
+			case "eagain":
+				poolErr = &os.PathError{Op: "read", Path: "/dev/stdin", Err: syscall.EAGAIN}
+			case "eintr":
+				poolErr = os.NewSyscallError("wait", syscall.EINTR)
+			case "canceled":
+				poolErr = context.Canceled
+			case "deadline":
+				poolErr = context.DeadlineExceeded
 			default:
-				poolErr = errors.New("pool error")
+				if strings.HasPrefix(r.ErrMode, "text:") {
+					poolErr = errors.New(r.ErrMode[5:]) // the TEXT of an error says nothing about how often the function is to be called
+				} else {
+					poolErr = errors.New("pool error")
+				}
 			}
 			var target interface{}
 			switch {
